@@ -168,7 +168,8 @@ MAX_GIT_CALLS = 40
 
 def path_git_fault(ctx, arg):
     """any single git sub-command failing: `get_vcs_data` (+ `vcs_data_to_zerv_vars`) against the C02 git stub, where the
-    git call with a solver-chosen index returns Err(CommandFailed) — the extraction must return Ok or Err, never panic"""
+    git call with a solver-chosen index returns Err(CommandFailed) — the extraction must return Ok or Err, never panic,
+    and must not write to standard output (only cli::app prints the result)"""
     import c02
     I, w = ctx.I, ctx.w
     wd = c02.GitWorld(ctx, arg)
@@ -177,37 +178,42 @@ def path_git_fault(ctx, arg):
     c02.WORLD[0] = wd
     fmt = arg['fmt']
 
-    def viol(stage, e):
+    def viol(stage, e, site='git_fault'):
         m = w.get_model()
-        ctx.violation(clause='panic', site='git_fault', stage=stage, world=wd.concrete(m), fmt=fmt, failed=wd.failed,
+        ctx.violation(clause='panic' if site == 'git_fault' else 'stdout_write', site=site, stage=stage, world=wd.concrete(m), fmt=fmt, failed=wd.failed,
                       fail_at=m.eval(wd.fail_at, model_completion=True).as_long(), calls=len(wd.log), detail=str(e),
-                      vkey='panic|git_fault|%s|%s' % (stage, (wd.failed or (0, ['none']))[1][0]))
-    vcs = Adt('GitVcs', 0, [mkstring('/repo-under-test')])
-    try:
-        r = I.call('<GitVcs as Vcs>::get_vcs_data', [ValPtr(vcs), Str(c02.txt(fmt))])
-    except Panic as e:
-        viol('get_vcs_data', e)
-        return
-    finally:
-        c02.WORLD[0] = None
-    if len(wd.log) > MAX_GIT_CALLS:
-        raise Unsupported('more git calls than the fault index range covers')
-    if wd.failed is None:
-        ctx.tag('no_fault_reached')
-    else:
-        ctx.tag('fault:' + ' '.join(a for a in wd.failed[1][:2] if not a.startswith('v') and len(a) < 14))
-    if r.variant != 0:
+                      vkey='%s|%s|%s' % (site, stage, (wd.failed or (0, ['none']))[1][0]))
+
+    def body():
+        vcs = Adt('GitVcs', 0, [mkstring('/repo-under-test')])
+        try:
+            r = I.call('<GitVcs as Vcs>::get_vcs_data', [ValPtr(vcs), Str(c02.txt(fmt))])
+        except Panic as e:
+            viol('get_vcs_data', e)
+            return
+        finally:
+            c02.WORLD[0] = None
+        if len(wd.log) > MAX_GIT_CALLS:
+            raise Unsupported('more git calls than the fault index range covers')
         if wd.failed is None:
-            ctx.violation(clause='panic', site='git_fault', stage='spurious_error', world=wd.concrete(w.get_model()), fmt=fmt, failed=None, fail_at=-1, calls=len(wd.log),
-                          detail='extraction failed although no git command failed', vkey='panic|git_fault|spurious')
-        ctx.tag('returned_err')
-        return
-    ctx.tag('returned_ok')
-    try:
-        I.call('vcs_data_to_zerv_vars', [deep_copy(r.fields[0]), Str(c02.txt(fmt))])
-        ctx.tag('vars_returned')
-    except Panic as e:
-        viol('vcs_data_to_zerv_vars', e)
+            ctx.tag('no_fault_reached')
+        else:
+            ctx.tag('fault:' + ' '.join(a for a in wd.failed[1][:2] if not a.startswith('v') and len(a) < 14))
+        if r.variant != 0:
+            if wd.failed is None:
+                ctx.violation(clause='panic', site='git_fault', stage='spurious_error', world=wd.concrete(w.get_model()), fmt=fmt, failed=None, fail_at=-1, calls=len(wd.log),
+                              detail='extraction failed although no git command failed', vkey='panic|git_fault|spurious')
+            ctx.tag('returned_err')
+            return
+        ctx.tag('returned_ok')
+        try:
+            I.call('vcs_data_to_zerv_vars', [deep_copy(r.fields[0]), Str(c02.txt(fmt))])
+            ctx.tag('vars_returned')
+        except Panic as e:
+            viol('vcs_data_to_zerv_vars', e)
+    body()
+    if w.stdout:
+        viol('extraction', 'library code printed to standard output: %r' % ''.join(chr(c) if isinstance(c, int) else '?' for c in w.stdout)[:160], site='stdout_write')
 
 
 def git_fault_cases(tier):
@@ -221,4 +227,39 @@ def git_fault_cases(tier):
             for k in ((2,) if q else (1, 2, 3)):
                 out.append(dict(name=name, fmt=fmt, commits=k, tags=tags[:3] if q else tags, branch=list('main'), status_len=k % 2))
     out.append(dict(name='mixed', fmt='auto', shape='diamond', commits=4, tags=c02.MENUS['mixed'][0][:2 if q else 4], branch=None, status_len=0))
+    return out
+
+
+def path_branch_rules(ctx, arg):
+    """flow's branch-rule resolution never panics, whatever the branch name (C04's harness; only the panic clause is
+    judged here — rule selection and numbers are C04's obligations)"""
+    import c04
+
+    class PanicOnly:
+        def __init__(self, inner):
+            self.inner = inner
+
+        def __getattr__(self, k):
+            return getattr(self.inner, k)
+
+        def violation(self, **kw):
+            if kw.get('clause') == 'panic':
+                kw['site'] = 'branch_rules'
+                kw['vkey'] = 'panic|branch_rules'
+                self.inner.violation(**kw)
+    c04.path_rules(PanicOnly(ctx), arg)
+    ctx.tag('returned')
+
+
+def branch_rule_args(tier):
+    q = tier == 'quick'
+    out = []
+    for k in ((1, 9, 10, 11, 20) if q else (1, 2, 9, 10, 11, 19, 20, 21)):
+        out.append(dict(rules='default', branch=list('release/') + ['DIGIT'] * k))
+        out.append(dict(rules='default', branch=list('f/') + ['DIGIT'] * k + list('/7')))
+        out.append(dict(rules='default', branch=['DIGIT'] * k))
+    for n in range(0, 4 if q else 6):
+        out.append(dict(rules='default', branch=list('release/') + ['PATH'] * n))
+        out.append(dict(rules='short', branch=['PATH'] * n, num_flag=True))
+    out.append(dict(rules='default', branch=None))
     return out
